@@ -65,12 +65,19 @@ pub fn run_one_child(id: &str, tier: Tier, case: &Value, dir: &Path, timeout: Du
     .spawn()
     .expect("spawn one");
   let start = Instant::now();
+  // drain stdout concurrently: a large report would otherwise fill the pipe and block the child
+  let mut out_pipe = child.stdout.take().unwrap();
+  let reader = std::thread::spawn(move || {
+    let mut s = String::new();
+    use std::io::Read;
+    let _ = out_pipe.read_to_string(&mut s);
+    s
+  });
+  let mut reader = Some(reader);
   loop {
     match child.try_wait() {
       Ok(Some(status)) => {
-        let mut s = String::new();
-        use std::io::Read;
-        let _ = child.stdout.take().unwrap().read_to_string(&mut s);
+        let s = reader.take().map(|r| r.join().unwrap_or_default()).unwrap_or_default();
         let _ = std::fs::remove_file(&casefile);
         if status.success() {
           let _ = std::fs::remove_file(&errpath);
